@@ -3,7 +3,7 @@
 # usage: tools_demos.sh <tree>      (prints the demos that do not end with PASS; exit 1 if there is one)
 tree=${1:-/repo}
 cd "$(dirname "$0")/seeded" || exit 3
-run_demo() { d=$1; out=$(cd "$d" && PYTHONPATH=$2 timeout 900 /venv/bin/python demo.py 2>&1 | tail -1); echo "$d :: $out"; }
+run_demo() { d=$1; out=$(cd "$d" && PYTHONPATH=$2 timeout 900 /venv/bin/python demo.py 2>&1); rc=$?; out=$(echo "$out" | tail -1); [ $rc = 0 ] && out=PASS; echo "$d :: $out"; }  # exit status decides (the demos of round 8 print other last lines)
 export -f run_demo
 ls -d */ | tr -d / | xargs -P 14 -I{} bash -c "run_demo {} $tree" > /tmp/demos_all.$$ 2>&1
 bad=$(grep -vc ":: PASS" /tmp/demos_all.$$)
